@@ -82,4 +82,11 @@ ApplyDecimal(w, b) == Apply(w, b)
 IsDecimalSep(w) == w = "vírgula"
 DecimalMark == ","
 Annotate(toks) == {}
+
+Vocabulary == DOMAIN Units \cup DOMAIN OrdUnits \cup DOMAIN Smaller \cup DOMAIN Hundreds \cup
+              {"zero", "cem", "mil", "milésim", "milhã", "milhões", "milionésim", "bilhã", "biliã", "bilhões", "biliões", "bilionésim", "e", "vírgula",
+               "uma", "quatro", "cinco", "oito", "primeiro", "primeira", "primeiros", "primeiras", "segundo", "segunda", "terceiro", "quarta", "quinto",
+               "sexta", "sétimo", "oitava", "nono", "nona", "décimo", "décima", "décimos", "vigésimo", "vigésima", "trigésimo", "centésimo", "centésima",
+               "milésimo", "milésima", "milionésimo", "cento", "duzentos", "duzentas", "trezentos", "quinhentos", "novecentas", "milhão", "bilhão",
+               "bilião", "trinta", "quarenta", "cinquenta", "sessenta", "setenta", "oitenta", "noventa", "dezoito", "gatos", "o", "a"}
 =============================================================================
